@@ -61,6 +61,7 @@ package z
 //@   ensures [C19] #unchanged !result ==> forall x uint64 :: x <= bl.size ==> GcBit(bl, x) == old(GcBit(bl, x))
 
 //@ func (bl *Bloom) Clear()
+//@   holds defaultPolicy
 //@   reveal GcBitS
 //@   requires GcWfBloom(bl)
 //@   modifies bl.bitset[*]
